@@ -57,6 +57,16 @@ func (core *JApiCore) drainCurrentScanner() *jerr.JApiError {
 // simply decides which function to call based on lexeme type
 func (core *JApiCore) next(lexeme scanner.Lexeme) *jerr.JApiError {
 	switch lexeme.Type() {
+	case scanner.Parameter, scanner.Annotation, scanner.Schema, scanner.Text, scanner.Json, scanner.Enum,
+		scanner.ContextExplicitOpening:
+		// These parts of a directive need the directive they belong to. There is none at the
+		// very beginning of a file, right after a closing parenthesis, and after an INCLUDE.
+		if core.currentDirective == nil {
+			return jerr.NewJApiError(
+				"there is no directive for this "+lexeme.Type().String(), lexeme.File(), lexeme.Begin())
+		}
+	}
+	switch lexeme.Type() {
 	case scanner.Keyword:
 		return core.processKeyword(lexeme)
 
